@@ -203,6 +203,28 @@ class Interp:
                     else:
                         ps.append(("fmt", norm(v.value)))
             return S(ps)
+        if isinstance(e, ast.BoolOp) and not all(isinstance(v, (ast.Compare, ast.BoolOp)) or (isinstance(v, ast.UnaryOp) and isinstance(v.op, ast.Not)) for v in e.values):
+            # `a or b` / `a and b` used for its value: the first operand that decides, else the last one
+            is_or = isinstance(e.op, ast.Or)
+            cands = []
+            for i, x in enumerate(e.values):
+                v = self.ev(x, env)
+                if i == len(e.values) - 1:
+                    cands.append(v)
+                    break
+                t = truth(v)
+                if t == {is_or}:
+                    cands.append(v)
+                    break
+                if t == {not is_or}:
+                    continue
+                cands.append(v)      # may decide, may not
+            if len(cands) == 1 or all(c == cands[0] for c in cands):
+                return cands[0]
+            ks = {kind_of(c) for c in cands}
+            if len(ks) == 1 and None not in ks:
+                return K(ks.pop())
+            return TOP
         if isinstance(e, (ast.Compare, ast.BoolOp)) or (isinstance(e, ast.UnaryOp) and isinstance(e.op, ast.Not)):
             ts = {tv for tv, _ in self.test(e, env)}
             return C(ts.pop()) if len(ts) == 1 else K("bool")
